@@ -134,6 +134,7 @@ Proof.
     reflexivity.
   - specialize (IHu Hu). cbn [construct]. rewrite mk_map_five by (apply construct_wf; auto).
     rewrite !five_Map. f_equal. apply IHu.
+  - (* Ren *) specialize (IHu Hu). exact (IHu rho (ren_drop r drop)).
 Qed.
 
 (* the specification of the constructed tree = the specification of the user-level tree *)
@@ -306,6 +307,14 @@ Example ex_nested_merged :
 Proof. reflexivity. Qed.
 Example ex_nested_runs : create_program ex_nested [(4%N, 1%Q); (2%N, 5%Q)] [] = Ok true.
 Proof. vm_compute. reflexivity. Qed.
+
+(* non-vacuity of the channel renaming: ConstantPT on inner channel 1 (amplitude p0), renamed to outer channel 2.
+   Dropping outer channel 2 drops the inner channel (nothing evaluated, no waveform); dropping an outer channel
+   called 1 does not (the amplitude is needed: p0 missing) *)
+Definition ex_ren : pt := Map (Ren (Atom KConst [1%N] [EVar 0%N] (EConst 2) [] []) [(1%N, 2%N)]) [] [].
+Example ex_ren_drop : create_program ex_ren [] [2%N] = Ok false /\ create_program ex_ren [] [1%N] = Err Missing
+  /\ create_program ex_ren [(0%N, 1%Q)] [1%N] = Ok true.
+Proof. repeat split; vm_compute; reflexivity. Qed.
 
 Print Assumptions construct_obs.
 Print Assumptions user_iff.
